@@ -39,7 +39,7 @@ def sym_date(o, tag):
     return y, d, date
 
 
-@obligation(prop="C01", tier="quick", timeout=900, probe="from_num_days_from_ce_opt", shards=8,
+@obligation(prop="C01", tier="thorough", timeout=1800, probe="from_num_days_from_ce_opt", shards=8,
             desc="from_num_days_from_ce_opt(n) is Some exactly for day numbers of representable dates, and then its (year, ordinal) is the valid date whose reference day number (365(y-1)+floor((y-1)/4)-floor((y-1)/100)+floor((y-1)/400)+ordinal) is n; no panic edge reachable",
             bounds="all i32 day numbers; YEAR_DELTAS / YEAR_TO_FLAGS contents taken from the MIR of the current tree; no loops",
             outside="nothing inside the function; weekday flags are covered by the Kani harness c01_weekday")
@@ -84,3 +84,155 @@ def c01_m_daynum_of_date(o):
     o.reachable("max_year", y.e == MAXY)
     o.claim("inherent_matches", a.e == dayno(y.e, d.e))
     o.claim("trait_default_matches", b.e == dayno(y.e, d.e))
+
+
+# ---- kernel contracts (used as summaries by C01/C02/C03 obligations) ---------------------------
+
+def leaps_before(r):
+    """number of leap years among cycle years 0..r-1 (year 0 of the 400-year cycle is leap)"""
+    return z3.If(r <= 0, 0, (r - 1) / 4 - (r - 1) / 100 + (r - 1) / 400 + 1)
+
+
+def cyc(r, o):
+    """day index inside the 400-year cycle (year 0, ordinal 1 -> 0)"""
+    return 365 * r + leaps_before(r) + o - 1
+
+
+@obligation(prop="C01", tier="quick", timeout=600, shards=4,
+            desc="kernel contract: cycle_to_yo(c) for 0 <= c < 146097 returns (year_mod_400, ordinal) with 0 <= year_mod_400 <= 399, 1 <= ordinal <= 365/366 and 365*r + leaps_before(r) + ordinal - 1 == c (YEAR_DELTAS against the closed-form leap count); no panic edge reachable",
+            bounds="all cycle day indices 0..146096 (the callers' precondition), split per YEAR_DELTAS index")
+def c01_m_cycle_to_yo(o):
+    c = o.input("c", "u32")
+    o.require(c.e < 146097)
+    r = o.call("cycle_to_yo", c)
+    ym, od = r.fields[0].e, r.fields[1].e
+    o.flat = [ym, od]
+    o.no_panic()
+    o.reachable("last_day", z3.And(c.e == 146096, ym == 399))
+    idx = c.e / 365
+    sp = [idx == a for a in range(0, 401)]
+    o.claim("contract", z3.And(ym >= 0, ym <= 399, od >= 1, od <= z3.If(is_leap(ym), 366, 365), cyc(ym, od) == c.e), splits=sp)
+
+
+@obligation(prop="C01", tier="quick", timeout=600, shards=4,
+            desc="kernel contract: yo_to_cycle(r, ordinal) == 365*r + leaps_before(r) + ordinal - 1 for 0 <= r <= 399, 1 <= ordinal <= 366; no panic edge reachable",
+            bounds="all (year_mod_400, ordinal) pairs of the callers' precondition, split per table index")
+def c01_m_yo_to_cycle(o):
+    r = o.input("r", "u32")
+    od = o.input("od", "u32")
+    o.require(z3.And(r.e <= 399, od.e >= 1, od.e <= 366))
+    v = o.call("yo_to_cycle", r, od)
+    o.flat = [v.e]
+    o.no_panic()
+    o.reachable("r399", r.e == 399)
+    o.claim("contract", v.e == cyc(r.e, od.e), splits=[r.e == a for a in range(0, 400)])
+
+
+def sum_cycle_to_yo(ex, st, args):
+    c = args[0].e
+    ym, od = ex.fresh("ym"), ex.fresh("od")
+    ex.side.append(z3.Implies(z3.And(c >= 0, c < 146097),
+                              z3.And(ym >= 0, ym <= 399, od >= 1, od <= z3.If(is_leap(ym), 366, 365), cyc(ym, od) == c)))
+    # outside the precondition the real function may panic or return anything: report it as a panic edge
+    ex.panics.append((z3.And(st.pc, z3.Not(z3.And(c >= 0, c < 146097))), "cycle_to_yo called outside its contract precondition", "cycle_to_yo"))
+    return st, Agg("tuple", "tuple", [IntV(ym, "u32"), IntV(od, "u32")])
+
+
+def sum_yo_to_cycle(ex, st, args):
+    r, od = args[0].e, args[1].e
+    pre = z3.And(r >= 0, r <= 399, od >= 1, od <= 366)
+    v = ex.fresh("cyc")
+    ex.side.append(z3.Implies(pre, v == cyc(r, od)))
+    ex.side.append(z3.And(v >= 0, v <= 4294967295))
+    ex.panics.append((z3.And(st.pc, z3.Not(pre)), "yo_to_cycle called outside its contract precondition", "yo_to_cycle"))
+    return st, IntV(v, "u32")
+
+
+def use_cycle_contracts(o):
+    o.summarize("naive::date::cycle_to_yo", sum_cycle_to_yo)
+    o.summarize("naive::date::yo_to_cycle", sum_yo_to_cycle)
+
+
+def periodicity(o):
+    """dayno(400E + r, od) == 146097 E + cyc(r, od) - 365 for all E and 0 <= r < 400 (pure arithmetic lemma, proved by z3)"""
+    E, r, od = z3.Ints("lemE lemR lemO")
+    o.lemma("dayno_periodic", [E, r, od], z3.Implies(z3.And(r >= 0, r < 400), dayno(400 * E + r, od) == 146097 * E + cyc(r, od) - 365))
+
+
+@obligation(prop="C01", tier="quick", timeout=600, probe="from_num_days_from_ce_opt",
+            desc="from_num_days_from_ce_opt(n) (cycle kernels through their proved contracts): Some exactly for day numbers of representable dates, and then the valid (year, ordinal) whose reference day number is n; never panics; never calls a kernel outside its precondition",
+            bounds="all i32 day numbers; cycle_to_yo via the contract proved by M:c01_m_cycle_to_yo",
+            outside="body of cycle_to_yo (contract obligation); the direct, contract-free version of this obligation is M:c01_m_from_daynum (thorough tier)")
+def c01_m_from_daynum_modular(o):
+    use_cycle_contracts(o)
+    periodicity(o)
+    n = o.input("n", "i32")
+    r = o.call("NaiveDate::from_num_days_from_ce_opt", n)
+    some = opt_is_some(r)
+    Y, O, F = decode_date(o, opt_payload(r), "")
+    o.flat = [z3.If(some, 1, 0), z3.If(some, Y, 0), z3.If(some, O, 0)]
+    o.no_panic()
+    o.reachable("some", some)
+    o.reachable("none_low", z3.And(z3.Not(some), n.e < 0))
+    o.reachable("none_high", z3.And(z3.Not(some), n.e > 0))
+    era = (n.e + 365) / 146097
+    o.use_lemma("dayno_periodic", era, Y - 400 * era, O)
+    lo = dayno(z3.IntVal(MINY), 1)
+    hi = dayno(z3.IntVal(MAXY), 365)
+    o.claim("valid_date", z3.Implies(some, z3.And(Y >= MINY, Y <= MAXY, O >= 1, O <= z3.If(is_leap(Y), 366, 365))))
+    o.claim("daynum_matches", z3.Implies(some, dayno(Y, O) == n.e))
+    o.claim("some_iff_in_range", some == z3.And(n.e >= lo, n.e <= hi))
+
+
+def cycle_lemmas(o):
+    """pure lemmas about the closed-form cycle index (proved by z3 without program terms)"""
+    r, od, E = z3.Ints("lemR2 lemO2 lemE2")
+    o.lemma("cyc_bounds", [r, od], z3.Implies(z3.And(r >= 0, r <= 399, od >= 1, od <= z3.If(is_leap(r), 366, 365)),
+                                              z3.And(cyc(r, od) >= 0, cyc(r, od) <= 146096)))
+    o.lemma("leap_periodic", [E, r], is_leap(400 * E + r) == is_leap(r))
+
+
+@obligation(prop="C01", tier="quick", timeout=600,
+            desc="kernel contract: YearFlags::from_year_mod_400(i) for 0 <= i < 400 has a non-zero weekday part (1..=7 in the low three bits), fits in four bits, and its leap bit is clear exactly for leap years (YEAR_TO_FLAGS against the divisibility rule); no panic",
+            bounds="all 400 indices (split per index)")
+def c01_m_year_flags(o):
+    i = o.input("i", "i32")
+    o.require(z3.And(i.e >= 0, i.e < 400))
+    f = o.call("YearFlags::from_year_mod_400", i)
+    fe = f.fields[0].e
+    o.flat = [fe]
+    o.no_panic()
+    o.reachable("leap", z3.And(i.e == 0, fe < 8))
+    o.claim("contract", z3.And(fe >= 1, fe <= 15, fe % 8 != 0, (fe < 8) == is_leap(i.e)), splits=[i.e == a for a in range(400)])
+
+
+def sum_year_flags(ex, st, args):
+    i = args[0].e
+    F = ex.fresh("yflags")
+    ex.side.append(z3.And(F >= 0, F <= 255))
+    ex.side.append(z3.Implies(z3.And(i >= 0, i < 400), z3.And(F >= 1, F <= 15, F % 8 != 0, (F < 8) == is_leap(i))))
+    ex.panics.append((z3.And(st.pc, z3.Not(z3.And(i >= 0, i < 400))), "from_year_mod_400 called outside 0..400", "YearFlags::from_year_mod_400"))
+    return st, Agg("struct", "YearFlags", [IntV(F, "u8")])
+
+
+def use_flags_contract(o):
+    o.summarize("naive::internals::from_year_mod_400", sum_year_flags)
+
+
+@obligation(prop="C01", tier="quick", timeout=600,
+            desc="kernel contract: from_ordinal_and_flags(year, ordinal, flags) with a 4-bit flags value returns Some exactly for MIN_YEAR <= year <= MAX_YEAR and 1 <= ordinal <= 365 (366 when the flags' leap bit is clear), and the packed word is year*8192 + ordinal*16 + flags, i.e. its (year, ordinal) fields are the arguments",
+            bounds="all i32 years x all u32 ordinals x flags 1..=15")
+def c01_m_from_ordinal_and_flags(o):
+    y = o.input("y", "i32")
+    od = o.input("od", "u32")
+    fl = o.input("fl", "u8")
+    o.require(z3.And(fl.e >= 1, fl.e <= 15, fl.e % 8 != 0))
+    r = o.call("NaiveDate::from_ordinal_and_flags", y, od, Agg("struct", "YearFlags", [fl]))
+    some = opt_is_some(r)
+    yof = opt_payload(r).fields[0].e
+    o.flat = [z3.If(some, 1, 0)]
+    o.no_panic()
+    o.reachable("ord366", z3.And(some, od.e == 366))
+    o.reachable("none", z3.Not(some))
+    o.claim("some_iff", some == z3.And(y.e >= MINY, y.e <= MAXY, od.e >= 1, od.e <= z3.If(fl.e < 8, 366, 365)))
+    o.claim("packed_word", z3.Implies(some, yof == y.e * 8192 + od.e * 16 + fl.e))
